@@ -1,3 +1,4 @@
 import RustCcModel.Properties.C02
 #print axioms RustCc.C02.pass_complete
 #print axioms RustCc.C02.buffered_garbage_is_candidate
+#print axioms RustCc.C02.reachable_pass_complete
